@@ -109,11 +109,16 @@ Definition orca_parse (R : nat) (ls : list row) : res matrix :=
       if (length M =? R) && rectb R M then Ok M else ErrShape
   end.
 
-(* ORCA.py:436-437 (commit d8ad5dc): the .hess file must contain a line starting with "$end" after
-   the start of the Hessian block, otherwise CouldNotGetProperty("Hessian file was not complete");
-   `has_end` is that test, the rest of the file is parsed as before *)
-Definition orca_hess_file (has_end : bool) (R : nat) (ls : list row) : res matrix :=
-  if has_end then orca_parse R ls else ErrProperty.
+(* ORCA.py:436-437 (commit d8ad5dc):
+     if not any(ln.startswith("$end") for ln in file_lines[start_line:]): raise CouldNotGetProperty
+   `is_end` recognises such a line (an oracle on lines: it is text, not a number); the test runs over the
+   lines from the first data line on (`rest`), before anything is parsed. *)
+Variable is_end : list A -> bool.
+Definition orca_hess_file (R : nat) (ls : list row) : res matrix :=
+  match ls with
+  | [] => ErrProperty                      (* nothing after the dimension line: any([]) is False *)
+  | h :: rest => if existsb is_end rest then orca_parse R ls else ErrProperty
+  end.
 
 (* ---------------------------------------------------------------- Q-Chem ----------------- *)
 (* Blocks of 6 columns, no row/column numbers, blocks separated by two lines (blank).
@@ -215,8 +220,11 @@ Definition lower_rows (M : matrix) : matrix :=
 
 (* ---------------------------------------------------------------- per-atom tables --------- *)
 (* every wrapper: a marker line, then n lines of which the last k fields are the values;
-   `lines[first:last]` silently yields fewer lines at the end of a truncated file and the
-   Species setter then rejects the shape (ValueError).  *)
+   `lines[first:last]` silently yields fewer lines at the end of a truncated file; for gradients
+   the Species.gradient setter then rejects the shape (ValueError = ErrShape, the case modelled
+   here and tied by Corr.check_table).  NOT modelled: a short coordinates table reaches
+   Atoms.coordinates and raises a bare AssertionError (known finding), a short charge table is
+   swallowed by set_properties (executors.py:169-174) and the charges stay unset. *)
 Definition table_parse (n skip : nat) (after_marker : list row) : res matrix :=
   let t := firstn n (skipn skip after_marker) in
   if length t =? n then Ok t else ErrShape.
@@ -406,6 +414,19 @@ Record frame : Type := mkFrame {
   f_solvent : option str; f_energy : option str }.
 Definition title_text (l : xline) : str := match l with LTitle s => s | LTok _ => [] end.
 Variable solvent_key : str.     (* "solvent_name" (commit 110cba0) *)
+(* oracles for the conversions applied to the title values (input_output.py:150-158, 187-205):
+     Molecule(atoms, solvent_name=title.get(key)) -> get_solvent: an unknown name raises SolventNotFound
+       (an AutodeException naming the problem; NOT the format error) - checked first;
+     then species.charge = int(v), species.mult (int(v) > 0), species.energy = float(v) through
+     _set_attr_from_title_line, which maps ValueError / TypeError to XYZfileWrongFormat (commit f5575d0)
+     and ignores a missing key (IndexError). *)
+Variables int_ok mult_ok float_ok solv_ok : str -> bool.
+Definition conv_ok (ok : str -> bool) (v : option str) : bool := match v with Some x => ok x | None => true end.
+Definition title_solvent_ok (tt : str) : bool := conv_ok solv_ok (sd_get solvent_key tt).
+Definition title_values_ok (tt : str) : bool :=
+  conv_ok int_ok (sd_get (s_ "charge") tt) && conv_ok mult_ok (sd_get (s_ "mult") tt) &&
+  conv_ok float_ok (sd_get (s_ "E") tt).
+Definition title_converts (tt : str) : bool := title_solvent_ok tt && title_values_ok tt.
 Definition is_blank (l : xline) : bool :=            (* len(line.split()) == 0 *)
   match l with LTok [] => true | LTok _ => false | LTitle s => forallb is_ws s end.
 (* while lines and not lines[-1].split(): lines.pop() *)
@@ -433,6 +454,8 @@ Fixpoint read_frames (fuel n : nat) (ls : list xline) : res (list frame) :=
           else match parse_atoms fl with
                | Ok atoms =>
                    let tt := title_text (hd (LTok []) rest0) in
+                   if negb (title_solvent_ok tt) then ErrOther
+                   else if negb (title_values_ok tt) then ErrFormat else
                    let fr := mkFrame atoms (sd_get (s_ "charge") tt) (sd_get (s_ "mult") tt)
                                      (sd_get solvent_key tt) (sd_get (s_ "E") tt) in
                    match read_frames f n (skipn n (skipn 1 rest0)) with
